@@ -393,6 +393,29 @@ fn owned_str_roundtrip() {
     }
 }
 
+/// concrete multi-byte strings: lengths are byte lengths, not character counts (cheap: everything is concrete)
+macro_rules! owned_str_concrete {
+    ($name:ident, $lit:expr) => {
+        #[kani::proof]
+        #[kani::unwind(12)]
+        fn $name() {
+            let s: &str = $lit;
+            let b: Box<str> = Box::from(s);
+            let p = b.as_ptr();
+            let o: DiplomatOwnedUTF8StrSlice = b.into();
+            let raw: RawView<u8> = unsafe { core::mem::transmute_copy(&o) };
+            assert!(raw.ptr as *const u8 == p && raw.len == s.len(), "C16: owned str view must keep pointer and byte length");
+            let back: Box<str> = o.into();
+            assert!(back.len() == s.len() && back.as_ptr() == p);
+            let v: DiplomatUtf8StrSlice = s.into();
+            let rawv: RawView<u8> = unsafe { core::mem::transmute_copy(&v) };
+            assert!(rawv.ptr as *const u8 == s.as_ptr() && rawv.len == s.len(), "C16: str view must keep pointer and byte length");
+        }
+    };
+}
+owned_str_concrete!(owned_str_concrete_latin, "h\u{e9}llo");
+owned_str_concrete!(owned_str_concrete_astral, "\u{1F600}x");
+
 #[kani::proof]
 #[kani::unwind(3)]
 fn owned_str_null_from_c() {
